@@ -11,6 +11,7 @@ import (
 	"github.com/siglens/siglens/pkg/config"
 	eswriter "github.com/siglens/siglens/pkg/es/writer"
 	"github.com/siglens/siglens/pkg/segment/query"
+	sutils "github.com/siglens/siglens/pkg/segment/utils"
 	"github.com/siglens/siglens/pkg/segment/writer"
 	vsync "github.com/siglens/siglens/pkg/zzvsync"
 )
@@ -110,6 +111,11 @@ func runSteps(steps []SchedStep) []stepRes {
 			r.Running, r.Waiting = run, wait
 			for _, qid := range wait {
 				query.CancelQuery(qid)
+			}
+		case "mput":
+			// one metrics datapoint (OpenTSDB JSON in Event) through the ingest entry point
+			if err := writer.AddTimeSeriesEntryToInMemBuf([]byte(st.Event), sutils.SIGNAL_METRICS_OTSDB, 0); err != nil {
+				r.Err = err.Error()
 			}
 		case "tables":
 			r.Running, r.Waiting = query.VerifQueryTables()
